@@ -147,6 +147,11 @@ func (x *Exec) rootHeap(a *Addr) (name, srt, elemSort string) {
 }
 
 func (x *Exec) readRoot(st *State, a *Addr) Term {
+	if a.Kind == akGlobal {
+		if t, ok := x.sentinel(a); ok {
+			return t
+		}
+	}
 	name, srt, es := x.rootHeap(a)
 	h := x.heapGet(st, name, srt)
 	switch a.Kind {
